@@ -933,6 +933,11 @@ def pred_lang(test, var, alpha):
                     raise AnalysisError('membership in the empty string')
                 res = rl(cls_ + '.*') if norm(l.slice) == '0' else rl('.*' + cls_)
                 return res if isinstance(op, ast.In) else res.complement()
+            if isinstance(l, ast.Constant) and isinstance(l.value, str) and norm(r) == '%s.strip()' % var and isinstance(op, (ast.In, ast.NotIn)) \
+                    and len(l.value) == 1:
+                c_ = re.escape(l.value)
+                res = rl(r'.*\S.*' + c_ + r'.*\S.*') if l.value.isspace() else rl('.*' + c_ + '.*')
+                return res if isinstance(op, ast.In) else res.complement()
             if isinstance(l, ast.Constant) and isinstance(l.value, str) and norm(r) == var and isinstance(op, (ast.In, ast.NotIn)):
                 res = rl('.*' + re.escape(l.value) + '.*')
                 return res if isinstance(op, ast.In) else res.complement()
